@@ -887,10 +887,21 @@ where
                 return;
             }
 
+            // The count reached zero outside the shard lock: a lookup may have taken a new reference since. The record
+            // is released only if it is still unreferenced once the lock is held, or the algorithm would treat an entry
+            // with a live handle as released (LRU would unpin it, and it could be evicted while held).
             match E::release() {
                 Op::Noop => {}
-                Op::Immutable(_) => shard.read().with(|shard| shard.release_immutable(&self.record)),
-                Op::Mutable(_) => shard.write().with(|mut shard| shard.release_mutable(&self.record)),
+                Op::Immutable(_) => shard.read().with(|shard| {
+                    if self.record.refs() == 0 {
+                        shard.release_immutable(&self.record)
+                    }
+                }),
+                Op::Mutable(_) => shard.write().with(|mut shard| {
+                    if self.record.refs() == 0 {
+                        shard.release_mutable(&self.record)
+                    }
+                }),
             }
         }
     }
